@@ -7,7 +7,7 @@ THOROUGH_CONFIGS = ['dot', 'router']
 
 
 MANIFEST = {
-    "text": "Static decision of the agreement between the rule-side and the request-side normalisers: the percent-encode sets are const-evaluated and compared as sets (URL sets equal; the request's one-step query set equals the union of the rule's two steps; `%` in no set, so re-encoding is idempotent) and each call site uses the set of its side; both sides pass the query through a key-sorted BTreeMap on every path that has a query; the matching form is the lower-cased stored form exactly under the case flag at every construction site; marketing parameters are diverted exactly when configured and forwarded only under the pass flag; rebuilds start from the original URL. Semantics of form_urlencoded / http::uri / percent_encoding are trusted. Also: the string tested for `?` is the one appended to, no percent-decoding anywhere, the sorted maps are keyed by decoded names.",
+    "text": "Static decision of the agreement between the rule-side and the request-side normalisers: the percent-encode sets are const-evaluated and compared as sets (URL sets equal; the request's one-step query set equals the union of the rule's two steps; `%` in no set, so re-encoding is idempotent) and each call site uses the set of its side; both sides pass the query through a key-sorted BTreeMap on every path that has a query; the matching form is the lower-cased stored form exactly under the case flag at every construction site; marketing parameters are diverted exactly when configured and forwarded only under the pass flag; rebuilds start from the original URL. Semantics of form_urlencoded / http::uri / percent_encoding are trusted. Also: the string tested for `?` is the one appended to, no percent-decoding anywhere, the sorted maps are keyed by decoded names. Also (round 5): no percent-encoding call is fed a case-folded text (escape, then fold, on both sides), and the keys the sorted map is ordered by must be case-folded before the ordering step under the case flag (today they are not: known finding D25).",
     "technique": "static analysis: const-evaluated set algebra, must-pass-through and decision tables over MIR",
 }
 
